@@ -45,14 +45,23 @@ Fixpoint remove_first (r : row) (l : list row) : list row :=
 Definition apply1 (t : list row) (e : edit) : list row :=
   match e with EIns r => t ++ [r] | EDel r => remove_first r t | EUpd o n => remove_first o t ++ [n] end.
 Definition apply_edits (t : list row) (es : list edit) : list row := fold_left apply1 es t.
-Definition apply_opt (t : list row) (es : list edit) : option (list row) * list row :=
-  (Some (apply_edits t es), apply_edits t es).
+(* the deletes of ApplyEdits (what is done before the injected fault fires) *)
+Definition apply_dels1 (t : list row) (e : edit) : list row :=
+  match e with EIns _ => t | EDel r => remove_first r t | EUpd o _ => remove_first o t end.
+Definition apply_dels (t : list row) (es : list edit) : list row := fold_left apply_dels1 es t.
+
+(* [fault] = Some n: the n-th ApplyEdits call of the statement returns the injected error after its deletes *)
+Definition apply_opt (fault : option nat) (n : nat) (t : list row) (es : list edit) : option (list row) * list row :=
+  match fault with
+  | Some k => if Nat.eqb k n then (None, apply_dels t es) else (Some (apply_edits t es), apply_edits t es)
+  | None => (Some (apply_edits t es), apply_edits t es)
+  end.
 
 (* rows before; the edits of the statement's row-edit calls in call order; number of calls that succeed before
    the failing one (None: no call fails); trigger: audit table before + the audit row written for each call;
-   observed: statement returned an error, rows after, audit rows after *)
+   observed: statement returned an error, rows after, audit rows after; armed ApplyEdits fault (call number) *)
 Definition case : Type :=
-  (list row * list edit * option nat * option (list row * list row) * bool * list row * list row)%type.
+  (list row * list edit * option nat * option (list row * list row) * bool * list row * list row * option nat)%type.
 
 Definition calls_of (es : list edit) (fail_at : option nat) : list (call edit) :=
   match fail_at with
@@ -63,15 +72,15 @@ Definition calls_of (es : list edit) (fail_at : option nat) : list (call edit) :
 Definition is_err (r : result) : bool := match r with RErr => true | ROk => false end.
 
 Definition ok (c : case) : bool :=
-  let '(before, es, fail_at, trig, obs_err, obs_after, obs_audit) := c in
+  let '(before, es, fail_at, trig, obs_err, obs_after, obs_audit, afault) := c in
   let cs := calls_of es fail_at in
   match trig with
   | None =>
-      let '(res, after) := run_stmt (list row) edit apply_opt before cs in
+      let '(res, after) := run_stmt (list row) edit (apply_opt afault) before cs in
       Bool.eqb (is_err res) obs_err && bag_eqb after obs_after
   | Some (audit_before, audit_rows) =>
       let '(res, after, audit_after) :=
-        run_stmt_trig (list row) edit apply_opt row EIns before audit_before (combine audit_rows cs) in
+        run_stmt_trig (list row) edit (apply_opt afault) row EIns before audit_before (combine audit_rows cs) in
       Bool.eqb (is_err res) obs_err && bag_eqb after obs_after && bag_eqb audit_after obs_audit
   end.
 
